@@ -1151,8 +1151,14 @@ func (m *membersPool) MembersLen(node base.Address) int {
 func (m *membersPool) Set(member Member) (added bool) {
 	id := memberid(member.Addr())
 
-	_, _, _ = m.addrs.Set(id, func(_ Member, addrfound bool) (Member, error) {
+	_, _, _ = m.addrs.Set(id, func(prev Member, addrfound bool) (Member, error) {
 		added = !addrfound
+
+		// NOTE the addr joined under the another node; it leaves the previous
+		// node.
+		if addrfound && prev != nil && prev.Address().String() != member.Address().String() {
+			m.removeFromNode(prev.Address().String(), id)
+		}
 
 		_, _, _ = m.members.Set(member.Address().String(), func(members []Member, _ bool) ([]Member, error) {
 			// NOTE the member of the same addr is replaced, not duplicated
@@ -1183,19 +1189,23 @@ func (m *membersPool) Remove(k *net.UDPAddr) (bool, error) {
 
 		// NOTE only the member of the addr leaves; the other members of the
 		// same node remain.
-		_, _, _, _ = m.members.SetOrRemove(
-			i.Address().String(),
-			func(members []Member, _ bool) ([]Member, bool, error) {
-				nmembers := util.FilterSlice(members, func(n Member) bool {
-					return memberid(n.Addr()) != id
-				})
-
-				return nmembers, len(nmembers) < 1, nil
-			},
-		)
+		m.removeFromNode(i.Address().String(), id)
 
 		return nil
 	})
+}
+
+func (m *membersPool) removeFromNode(node, id string) {
+	_, _, _, _ = m.members.SetOrRemove(
+		node,
+		func(members []Member, _ bool) ([]Member, bool, error) {
+			nmembers := util.FilterSlice(members, func(n Member) bool {
+				return memberid(n.Addr()) != id
+			})
+
+			return nmembers, len(nmembers) < 1, nil
+		},
+	)
 }
 
 func (m *membersPool) Len() int {
